@@ -38,7 +38,7 @@ def plan(tier):
 
 def floors(tier):
     return {"nontrivial": 30, "held:additive": 30, "counter:jtj_checks": 80, "counter:hessian_checks": 80, "counter:hessian_exact": 30,
-            "counter:psd_checks": 80, "counter:fd_crosschecks": 60, "class:weights": 15, "class:target_param": 10, "class:obs-permuted": 10}
+            "counter:psd_checks": 80, "counter:fd_crosschecks": 60, "class:weights": 15, "class:weights-zero-mask": 5, "class:target_param": 10, "class:obs-permuted": 10}
 
 
 def run_case(rng, idx, tier, lane, ctx):
@@ -76,6 +76,8 @@ def run_case(rng, idx, tier, lane, ctx):
         cls.append("target_param")
     if c.weight_arg is not None:
         cls.append("weights")
+        if "mask" in getattr(c, "weight_form", ""):
+            cls.append("weights-zero-mask")
     sample = LC.describe(c)
 
     def bad(what, **kw):
